@@ -76,3 +76,16 @@ Example write_ptr_member_total_refuted :
   (exists w', write_ptr 10 true ex_fresh 0 0 InSrc ex_member false = Ok w' /\
               bm_data (w_dst w') = [[0;0;0;0;1;0;0;0; 104;0;0;0;0;0;0;0]]).
 Proof. split; [reflexivity|]. eexists. split; reflexivity. Qed.
+
+(* for Properties_C05.v *)
+Lemma ex_both_valid : valid_message (last_dump ex_far) = VOk /\ valid_message (last_dump ex_dfar) = VOk.
+Proof. split; [apply ex_far_pointer|apply ex_double_far_pointer]. Qed.
+
+(* [valid_message] is a structural predicate: it checks pointer resolution, bounds and that the
+   regions it collects are pairwise equal or disjoint, but not that equal regions have the same
+   kind, nor that a region is not the root word: this one-word message, whose root pointer
+   designates its own word as a zero-data one-pointer struct, passes.  The table invariant [hinv]
+   excludes such messages for everything the builder produces (regions of different table
+   entries are disjoint, the root word is its own entry). *)
+Example valid_message_is_structural : valid_message [[252; 255; 255; 255; 0; 0; 1; 0]] = VOk.
+Proof. vm_compute. reflexivity. Qed.
